@@ -277,7 +277,7 @@ class TabWorld:
                     [r + [c] for r, c in zip(rows, comp)])
         raise ValueError(via)
 
-    def op_read(self, table, via, chunk_size, col_pick, other=None, rename=None):
+    def op_read(self, table, via, chunk_size, col_pick, other=None, rename=None, twin_chunk=None):
         """Whole read and chunked read through reader kind `via`; col_pick selects/permutes columns (None = all)."""
         t = self.tables.get(table)
         if t is None or not t["final"]:
@@ -313,7 +313,33 @@ class TabWorld:
         if not rows_equal(exp_rows, got_whole):
             raise OracleViolation("read_whole", f"{via} reader on {t['fmt']}: whole read differs from the table: "
                                   f"{first_diff(exp_rows, got_whole)}", **sig)
-        chunks = list(reader.get_chunked_data_iterator(chunk_size=chunk_size, columns=want_cols))
+        if twin_chunk:
+            # two chunk iterators of the SAME reader object alive at once, advanced alternately (what worker threads
+            # sharing one reader do); each must deliver what it delivers alone
+            it_a = reader.get_chunked_data_iterator(chunk_size=chunk_size, columns=want_cols)
+            it_b = reader.get_chunked_data_iterator(chunk_size=twin_chunk, columns=want_cols)
+            chunks, twin = [], []
+            live = [(it_a, chunks), (it_b, twin)]
+            while live:
+                for pair in list(live):
+                    try:
+                        pair[1].append(next(pair[0]))
+                    except StopIteration:
+                        live.remove(pair)
+            self.stats["interleaved_iterators"] = self.stats.get("interleaved_iterators", 0) + 1
+            off = 0
+            for k, ch in enumerate(twin):
+                if list(ch.index) != list(range(off, off + len(ch))):
+                    raise OracleViolation("chunk_index", f"{via} reader on {t['fmt']}: second iterator (chunk size {twin_chunk}) "
+                                          f"advanced alternately with a first one (chunk size {chunk_size}): index of its chunk {k} "
+                                          f"is {list(ch.index)[:4]}..., expected to continue at {off}", interleaved=True, **sig)
+                off += len(ch)
+            got_twin = [r for ch in twin for r in frame_rows(ch, exp_cols)]
+            if not rows_equal(exp_rows, got_twin):
+                raise OracleViolation("read_chunked", f"{via} reader on {t['fmt']}: second of two alternately advanced iterators "
+                                      f"delivers other rows: {first_diff(exp_rows, got_twin)}", interleaved=True, **sig)
+        else:
+            chunks = list(reader.get_chunked_data_iterator(chunk_size=chunk_size, columns=want_cols))
         self.stats["chunked_reads"] += 1
         if len(chunks) > 1:
             self.stats["multi_chunk_reads"] += 1
